@@ -106,7 +106,11 @@ fn test_values(kind: &str, f: &Value) -> Vec<FV> {
             (_, "Track") => vec![FV::Text(b"BL1".to_vec()), FV::Text(b"AS7R".to_vec()), FV::Text(b"FE2X".to_vec())],
             _ => vec![FV::Text(b"x".to_vec()), FV::Text((0..w).map(|i| b'A' + (i % 26) as u8).collect()), FV::Text(vec![])],
         },
-        "car" => vec![FV::Text(b"XRT\0".to_vec()), FV::Text(b"FBM\0".to_vec()), FV::Num(0), FV::Num(0x00ABCDEF), FV::Num(0xDEADBEEF)],
+        // … and mod ids on every side of the "three alphanumerics + NUL" boundary: one non-alphanumeric byte in each
+        // position, three alphanumerics with a non-zero fourth byte
+        "car" => vec![FV::Text(b"XRT\0".to_vec()), FV::Text(b"FBM\0".to_vec()), FV::Num(0), FV::Num(0x00ABCDEF), FV::Num(0xDEADBEEF),
+                      FV::Text(b"AB\xF3\0".to_vec()), FV::Text(b"A\xF3B\0".to_vec()), FV::Text(b"\xF3AB\0".to_vec()), FV::Text(b"X1 \0".to_vec()),
+                      FV::Text(b"XFG\x01".to_vec()), FV::Text(b"a_b\0".to_vec()), FV::Num(1), FV::Num(0x00FFFFFF), FV::Num(0x01000000)],
         "f32" => vec![FV::Num(0), FV::Num(1.0f32.to_bits() as u64), FV::Num((-2.5f32).to_bits() as u64), FV::Num(f32::MAX.to_bits() as u64)],
         "dur" => vec![FV::Num(0), FV::Num(1), FV::Num(max), FV::Num(max / 2 + 1), FV::Num(6000)],
         "spclose" => vec![FV::Num(0), FV::Num(1), FV::Num(4095), FV::Num(0x0800)],
